@@ -79,7 +79,10 @@ func init() {
 				}
 				// the boundary-literal family adds nothing for chunking; long special-length documents are not edited
 				fams = drop(fams, "json-int-boundaries")
-				inv = drop(inv, "json-int-boundaries", "ubj-marker-lengths", "cbor-break-lengths")
+				if tier != "thorough" {
+					fams = drop(fams, "ubj-noop-insertions")
+				}
+				inv = drop(inv, "json-int-boundaries", "ubj-marker-lengths", "cbor-break-lengths", "ubj-noop-insertions")
 				for i := range inv {
 					inv[i].Name += "-edited"
 				}
